@@ -140,8 +140,12 @@ m("c07-required-is-optional", "src/common/tls.rs", "        let ret = if self.re
 m("c07-always-insecure", "src/common/tls.rs", "        let config = if self.insecure {", "        let config = if self.insecure || self.ca.is_none() {", ["C07"])
 m("c07-quic-insecure-default", "src/common/quic.rs", "    if tls.insecure {\n        client_crypto", "    if tls.insecure || true {\n        client_crypto", ["C07"])
 m("c07-insecure-name-fallback", "src/connectors/http.rs", "                    if tls_insecure {\n                        ServerName::try_from(\"example.com\")", "                    if tls_insecure || true {\n                        ServerName::try_from(\"example.com\")", [])
+m("c18-lb-cycles-accepted", "src/connectors/loadbalance.rs", "        for _ in 0..MAX_NESTING {\n            level = level", "        for _ in 0..MAX_NESTING {\n            if true {\n                return Ok(());\n            }\n            level = level", ["C18"])
+m("c18-no-tree-depth-limit", "milu/src/parser.rs", "const MAX_DEPTH: usize = 256;", "const MAX_DEPTH: usize = 1 << 30;", ["C18"])
+m("c18-tree-depth-limit-600", "milu/src/parser.rs", "const MAX_DEPTH: usize = 256;", "const MAX_DEPTH: usize = 600;", ["C18"])
+m("c18-nesting-limit-200", "milu/src/parser.rs", "const MAX_NESTING: usize = 16;", "const MAX_NESTING: usize = 200;", ["C18"])
 m("c19-quic-idle-one-hour", "src/common/quic.rs", "    transport_config.keep_alive_interval(Some(Duration::from_secs(10)));\n    transport_config.max_idle_timeout(Some(Duration::from_secs(30).try_into().unwrap()));\n    if enable_bbr {", "    transport_config.keep_alive_interval(Some(Duration::from_secs(30)));\n    transport_config.max_idle_timeout(Some(Duration::from_secs(3600).try_into().unwrap()));\n    if enable_bbr {", ["C19"])
-m("c19-quic-keep-closed-connection", "src/connectors/quic.rs", "                if e.ctx.starts_with(\"quic:\") {", "                if false {", ["C19"])
+m("c19-quic-keep-closed-connection", "src/connectors/quic.rs", "                if e.ctx.starts_with(\"quic:\") {", "                if false {", [])  # equivalent: get_connection drops a closed connection anyway
 m("c19-http-connector-poisoned-after-failure", "src/connectors/http.rs", "        let server = TcpStream::connect((self.server.as_str(), self.port))\n            .await\n", "        static DEAD: std::sync::atomic::AtomicBool = std::sync::atomic::AtomicBool::new(false);\n        if DEAD.load(std::sync::atomic::Ordering::Relaxed) {\n            return Err(easy_error::err_msg(\"upstream marked dead\"));\n        }\n        let server = TcpStream::connect((self.server.as_str(), self.port))\n            .await\n            .map_err(|e| {\n                DEAD.store(true, std::sync::atomic::Ordering::Relaxed);\n                e\n            })\n", ["C19"])
 
 def run(name, file, old, new, props):
